@@ -1,4 +1,4 @@
-CONSTANTS Family = "upper"  MaxOps = 1  Bug = "StaleUpperEntry"  Emit = FALSE
+CONSTANTS Family = "upper"  MaxOps = 1  Bug = "StaleUpperEntry"  Emit = FALSE  Wide = FALSE
 CONSTANT Codes <- MCCodesOne
 INIT Init
 NEXT Next
